@@ -105,3 +105,29 @@ claim('C10', 'reaching definitions / provenance at the dispatch block, nullable-
       '(is None, not truthiness); parse_lp_packet_v2 checks 0x64, ignores unknown headers, rejects frag_index/frag_count with '
       'DecodeError; model type numbers, Fragment last, Nack nesting. Does not decide value-level behaviour for all header combinations.',
       'NDNLPv2 numbers as transcribed; TlvModel codec (C08)')
+
+claim('C11', 'CFG must-pass-through with guard polarity on the matcher state machine, bind/undo pairing, loop-shape (CNF) analysis, induction-variable facts of the pattern numbering, comprehension-shape check of reference inlining',
+      'Decides checker-side necessary conditions: a match is yielded only at depth == len(name); literal edges need an equal component; '
+      'every pattern-edge move is behind _check_cons(value, context, edge constraints); a bound tag needs an equal component; named '
+      'tags are bound once, pushed on the undo stack and removed on backtrack; _check_cons is for-all constraints / exists option with '
+      'each option comparing the component; tag numbering (named 1..n, temporaries from n+1, named_pattern_cnt = n, checker binds '
+      'tag <= n); reference inlining concatenates both name chains and both constraint sets over the product of alternatives, '
+      'redefinitions accumulate; save/load round-trip the model. Semantic equivalence of the compiler with the schema text for all '
+      'schemas x names is NOT decided (one known defect there, DESIGN §5 #30, is out of static reach).',
+      'TlvModel codec of the binary model; lark grammar/parser')
+
+claim('C12', 'CFG must-pass-through on the signer membership test, provenance of the carried context, sibling normalisation checks, loop completeness of the signing-reference fix-up',
+      'Decides: constraints are evaluated also on the bound-tag path (the defect that let /a/bar sign /b/bar); check() matches the key '
+      'name under the bindings produced by the packet match and answers True only through `key node in packet node.sign_cons`, False '
+      'by default; both names are normalised, digest-stripped and may be empty; every signer rule name maps to all node ids of that '
+      'rule, unknown signer raises, every rule-ending node is recorded; compiler pass order. The relation over all schema/name pairs is not decided.',
+      'as C11')
+
+claim('C13', 'guard-existence and raising-edge analysis against the documented sanity list (read from docs at run time), truthiness lint on integer ids, reachability of schema-error raises, loop progress of top_order',
+      'Decides: each of the six documented sanity rules has a test of the right shape whose violating edge raises LvsModelError, inside '
+      'a walk that starts at start_id and recurses over both edge kinds, run by the constructor and load(); integer ids are never '
+      'tested by truthiness; compile-time errors (undefined / temporary rule reference, reference and signing cycles via top_order, '
+      'unknown pattern, temporary pattern as value or argument, unknown signer) each have a guard raising SemanticError; every round '
+      'of top_order removes a node or raises. That every ill-formed schema is caught, and termination of _match on every accepted '
+      'model beyond the tree property, are not decided.',
+      'docs/src/lvs/binary-format.rst lists exactly the mandatory rules')
